@@ -61,6 +61,103 @@ func init() {
 	}
 }
 
+func init() {
+	replayers["c14.pt"] = func(c *Ctx, a []string) string {
+		res, ok := ed25519.VerifPointOp(a[0], unhx(a[1]), unhx(a[2]))
+		if !ok {
+			return "undecodable"
+		}
+		return "ok " + hxv(res)
+	}
+}
+
+// c14Points: the point formulas (addition, subtraction, negation, doubling, comparison, re-encoding) on encodings: multiples
+// of the base point, the small-order points and their non-canonical encodings, arbitrary byte strings. The model answers
+// from the RFC 8032 reference, the second driver from the translated formulas (Generated/EdPoints.lean), math/big is the
+// direct oracle.
+func c14Points(c *Ctx, r *Rng) {
+	small := []string{
+		"0100000000000000000000000000000000000000000000000000000000000000", "ecffffffffffffffffffffffffffffffffffffffffffffffffffffffffffff7f",
+		"0000000000000000000000000000000000000000000000000000000000000000", "0000000000000000000000000000000000000000000000000000000000000080",
+		"26e8958fc2b227b045c3f489f2ef98f0d5dfac05d3c63339b13802886d53fc05", "26e8958fc2b227b045c3f489f2ef98f0d5dfac05d3c63339b13802886d53fc85",
+		"c7176a703d4dd84fba3c0b760d10670f2a2053fa2c39ccc64ec7fd7792ac037a", "c7176a703d4dd84fba3c0b760d10670f2a2053fa2c39ccc64ec7fd7792ac03fa",
+		"0100000000000000000000000000000000000000000000000000000000000080", "eeffffffffffffffffffffffffffffffffffffffffffffffffffffffffffff7f",
+		"edffffffffffffffffffffffffffffffffffffffffffffffffffffffffffff7f", "ffffffffffffffffffffffffffffffffffffffffffffffffffffffffffffff7f",
+		"ffffffffffffffffffffffffffffffffffffffffffffffffffffffffffffffff",
+	}
+	pick := func() []byte {
+		switch r.IntN(5) {
+		case 0:
+			return unhx(small[r.IntN(len(small))])
+		case 1:
+			return r.Bytes(32)
+		default:
+			return []byte(ed25519.NewKeyFromSeed(r.Bytes(32))[32:])
+		}
+	}
+	n := c.Pick(150, 4000)
+	for i := 0; i < n; i++ {
+		a, b := pick(), pick()
+		if i%7 == 0 {
+			b = a
+		}
+		pa, pb := edDecodeLax(a), edDecodeLax(b)
+		for _, op := range []string{"add", "sub", "neg", "double", "equal", "recode"} {
+			out := c.Run("c14.pt", op, hx(a), hx(b))
+			c.Count("point:" + op)
+			needB := op == "add" || op == "sub" || op == "equal"
+			if pa == nil || (needB && pb == nil) {
+				c.Direct(out == "undecodable", "an encoding that is not a point was decoded", map[string]any{"op": op, "a": hx(a), "b": hx(b), "impl": out})
+				continue
+			}
+			var want []byte
+			neg := func(p edPt) edPt { return edPt{new(big.Int).Mod(new(big.Int).Neg(p.x), feP), p.y} }
+			switch op {
+			case "add":
+				want = edEncode(edAdd(*pa, *pb))
+			case "sub":
+				want = edEncode(edAdd(*pa, neg(*pb)))
+			case "neg":
+				want = edEncode(neg(*pa))
+			case "double":
+				want = edEncode(edAdd(*pa, *pa))
+			case "recode":
+				want = edEncode(*pa)
+			case "equal":
+				want = []byte{0}
+				if pa.x.Cmp(pb.x) == 0 && pa.y.Cmp(pb.y) == 0 {
+					want = []byte{1}
+				}
+			}
+			c.Direct(out == "ok "+hxv(want), "point operation differs from the math/big Edwards reference", map[string]any{"op": op, "a": hx(a), "b": hx(b), "impl": out, "want": hx(want)})
+		}
+	}
+}
+
+// edDecodeLax decodes as (*Point).SetBytes does: y is taken modulo p (values in [p, 2^255) are accepted), and x = 0 with the sign
+// bit set is accepted.
+func edDecodeLax(enc []byte) *edPt {
+	if len(enc) != 32 {
+		return nil
+	}
+	y := leInt(enc)
+	sign := y.Bit(255)
+	y.SetBit(y, 255, 0)
+	y.Mod(y, edP)
+	yy := new(big.Int).Mod(new(big.Int).Mul(y, y), edP)
+	u := new(big.Int).Mod(new(big.Int).Sub(yy, big.NewInt(1)), edP)
+	v := new(big.Int).Mod(new(big.Int).Add(new(big.Int).Mul(edD, yy), big.NewInt(1)), edP)
+	x2 := new(big.Int).Mod(new(big.Int).Mul(u, new(big.Int).ModInverse(v, edP)), edP)
+	x := new(big.Int).ModSqrt(x2, edP)
+	if x == nil {
+		return nil
+	}
+	if x.Bit(0) != sign {
+		x.Sub(edP, x).Mod(x, edP)
+	}
+	return &edPt{x, y}
+}
+
 var feP = new(big.Int).Sub(new(big.Int).Lsh(big.NewInt(1), 255), big.NewInt(19))
 
 func c14Field(c *Ctx, r *Rng) {
